@@ -210,6 +210,8 @@ Fixpoint spec_ok (lax : bool) (base cands : list db) (seen : list (string * list
   | HEv EvFlush :: er, HOut OBok :: orr => spec_ok lax base cands seen gmax er orr
   | HEv EvCrash :: er, HOut OBok :: orr =>
       spec_ok lax base (if lax then cands ++ base else cands) seen gmax er orr
+  | HEv (EvTornFlush _) :: er, HOut OBok :: orr =>
+      spec_ok lax base (if lax then cands ++ base else cands) seen gmax er orr
   | HEv (EvCrashInLog st _) :: er, HOut OBok :: orr =>
       (* some prefix of the statement's row operations, in order *)
       let c' := flat_map (fun d => stmt_prefixes d st) cands in
